@@ -128,13 +128,13 @@ def race_cases(ctx):
     cases = []
     if ctx.tier == "thorough":
         for s in scen:
-            for bits in itertools.product((0, 1), repeat=12):
+            for bits in itertools.product((0, 1), repeat=14):
                 cases.append(s + (list(bits),))
     else:
         for s in scen:
             for _ in range(24):
-                cases.append(s + ([rng.below(2) for _ in range(12)],))
-            cases.append(s + ([1, 1, 1, 1, 0, 0, 0, 0, 0, 1],))
+                cases.append(s + ([rng.below(2) for _ in range(14)],))
+            cases.append(s + ([1, 1, 1, 1, 1, 0, 0, 0, 0, 0, 0, 1],))
     return cases
 
 
@@ -168,6 +168,8 @@ def run(ctx):
         fn, running, hop, op, q, sched = c
         o, trace, states = obs[k]
         crashed = o[0]
+        if states[2]:
+            ctx.oracle_fail("the transmit queue is accessed outside its lock (%s)" % states[2][0], dict(tick=fn, op=op, queue=q, schedule=sched, trace=trace), key="c03-queue-unprotected")
         ne = o[3]
         emitted = o[4:4 + ne]
         ns = o[4 + ne]
@@ -195,5 +197,5 @@ def run(ctx):
     ctx.count("schedules", len(cases))
     ctx.extra["rule"] = ("(1) BTS+MS sessions: arrivals (frame numbers -2..+5 around the clock, wrong versions, truncated), ticks with gaps, POWERON/POWEROFF/SETFORMAT, every sixth session across the hyperframe wrap; "
                          "(2) one arrival (same / past / future frame) or POWEROFF or POWERON racing one tick on a transceiver with 0/1/4 queued bursts, fixed tuning or hopping, running or not: "
-                         "thorough = all 4096 schedule prefixes of length 12 per scenario (complete: no thread has more than 12 steps in total), quick = 25 per scenario; "
+                         "thorough = all 16384 schedule prefixes of length 14 per scenario (complete: the two threads have at most 14 steps in total), quick = 25 per scenario; "
                          "distinct_nontrivial = distinct outcome classes")
